@@ -53,7 +53,29 @@ def _is_xl(val):
     return getattr(type(val), '__module__', '').startswith('xlcalculator')
 
 
-_NEVER_IN_FLOAT = ('!', ':', '$', '(', ')', ',', '"', "'", '&', '=', '<', '>', '*', '/', '^', '%', '#', '@', '[', ']', '{', '}', ';', '?')
+_NEVER_NUMERIC = ('!', ':', '$')
+
+
+def _int_ok(o):
+    return (9 <= o <= 13) or (28 <= o <= 32) or o == 43 or o == 45 or o == 95 or (48 <= o <= 57)
+
+
+def _float_ok(o):
+    return (_int_ok(o) or o == 46 or o == 69 or o == 101 or o == 73 or o == 105 or o == 78 or o == 110 or o == 70 or o == 102
+            or o == 65 or o == 97 or o == 84 or o == 116 or o == 89 or o == 121)
+
+
+def _impossible_literal(val, ok):
+    """True iff the (symbolic) string certainly contains an ASCII character that no int/float literal may contain;
+    decides ValueError without realising the string.  Non-ASCII characters (Unicode digits/spaces exist) decide nothing."""
+    for bad in _NEVER_NUMERIC:          # fast path: a concrete delimiter somewhere in the token
+        if bad in val:
+            return True
+    for ch in val:
+        o = ord(ch)
+        if o < 128 and not ok(o):
+            return True
+    return False
 
 
 def _float(val=0.0):
@@ -76,9 +98,8 @@ def _float(val=0.0):
             return ret
         # A character that no Python float literal can contain decides ValueError without realising the string
         # (otherwise CrossHair enumerates the symbolic characters one value at a time).
-        for bad in _NEVER_IN_FLOAT:
-            if bad in val:
-                raise ValueError("could not convert string to float")
+        if _impossible_literal(val, _float_ok):
+            raise ValueError("could not convert string to float")
     elif is_symbolic_int:
         return val.__float__()
     elif xl:
@@ -103,6 +124,8 @@ def _int(val=0, base=_MISSING):
             with ResumedTracing():
                 if base is _MISSING:
                     base = 10
+                if _impossible_literal(val, _int_ok):
+                    raise ValueError("invalid literal for int()")
                 if any([base < 2, base > 10, not val]):
                     return int(realize(val), base=realize(base))
                 ret = 0
@@ -122,6 +145,24 @@ def _int(val=0, base=_MISSING):
 
 C._PATCH_REGISTRATIONS[float] = _float
 C._PATCH_REGISTRATIONS[int] = _int
+
+
+# ------------------------------------------------------------------ patch P2b: repr() of a symbolic string
+# Error messages are built with f'...{repr(self.value)}...'; CrossHair realises a symbolic str at repr(), i.e. every
+# error path enumerates the string values one by one.  Message texts are never asserted, so repr() of a symbolic
+# string is a constant while tracing.
+_orig_repr_patch = C._PATCH_REGISTRATIONS.get(repr)
+
+
+def _repr(obj):
+    with NoTracing():
+        sym = isinstance(obj, B.AnySymbolicStr)
+    if sym:
+        return '<symbolic str>'
+    return B.invoke_dunder(obj, "__repr__")
+
+
+C._PATCH_REGISTRATIONS[repr] = _repr
 
 # ------------------------------------------------------------------ patch P6: floats as reals
 # CrossHair otherwise picks the IEEE bit-precise representation on 2% of the paths, where z3 answers
